@@ -64,6 +64,8 @@ type cScript struct {
 	// Route: "own" (a Client with every field set), "nilhttp" (a Client without HTTPClient: DefaultClient's
 	// is used), "pkg" (sse.NewConnection: everything is configured on DefaultClient)
 	Route string `json:"route,omitempty"`
+	// Poison (route "own"): after NewConnection the Client value and the caller's request are changed
+	Poison bool `json:"poison_after_newconnection,omitempty"`
 	// BufMax > 0: Connection.Buffer(nil, BufMax)
 	BufMax int `json:"buf_max,omitempty"`
 	// TimeoutTErrs: transport errors implement Timeout()/Temporary() returning true (a dial or
@@ -76,6 +78,16 @@ type cScript struct {
 
 // blockBody is a response body that never delivers anything until it is closed: a stream
 // that stays open. Reading it to the end blocks (durably, inside a bubble).
+var errBodyClosed = errors.New("read on closed response body")
+
+// closeAware is a response body that records Close.
+type closeAware struct {
+	io.Reader
+	closed *atomic.Bool
+}
+
+func (c closeAware) Close() error { c.closed.Store(true); return nil }
+
 type blockBody struct {
 	ch    chan struct{}
 	once  sync.Once
@@ -165,6 +177,8 @@ type cObs struct {
 	CtxErrAtEnd error
 	OverScript bool
 	Runaway    bool
+	// PoisonCalls: uses of configuration that does not belong to this connection
+	PoisonCalls int
 }
 
 // seekBody is a body that can seek but is not one of the types http.NewRequest derives GetBody for.
@@ -255,6 +269,9 @@ func runClient(t *testing.T, sc *cScript) (obs *cObs) {
 			if v, ok := r.Header["Last-Event-Id"]; ok {
 				ao.HasHeader, ao.Header = true, append([]string(nil), v...)
 			}
+			if r.Header.Get("X-Next-Connection") != "" {
+				obs.PoisonCalls++
+			}
 			if r.Body == nil {
 				ao.BodyNil = true
 			} else {
@@ -273,6 +290,7 @@ func runClient(t *testing.T, sc *cScript) (obs *cObs) {
 				return nil, ctx.Err()
 			}
 			sp := sc.Attempts[a]
+			var bodyClosed atomic.Bool
 			if sp.Latency > 0 {
 				time.Sleep(time.Duration(sp.Latency))
 			}
@@ -337,13 +355,19 @@ func runClient(t *testing.T, sc *cScript) (obs *cObs) {
 				cr.OnRead = func(call, off int) error {
 					if off >= x {
 						cancel()
+						// like a network body, this one notices a concurrent Close at once and the end of
+						// the context a moment later: nobody may have closed it while its Read is pending
+						time.Sleep(1)
+						if bodyClosed.Load() {
+							return errBodyClosed
+						}
 						return ctx.Err()
 					}
 					return nil
 				}
 			}
 			return &http.Response{Status: "200 OK", StatusCode: 200, Proto: "HTTP/1.1", ProtoMajor: 1, ProtoMinor: 1,
-				Header: http.Header{"Content-Type": []string{"text/event-stream; charset=utf-8"}}, Body: io.NopCloser(cr), Request: r, ContentLength: -1}, nil
+				Header: http.Header{"Content-Type": []string{"text/event-stream; charset=utf-8"}}, Body: closeAware{cr, &bodyClosed}, Request: r, ContentLength: -1}, nil
 		})
 		cl := &sse.Client{
 			HTTPClient: &http.Client{Transport: rt},
@@ -390,6 +414,14 @@ func runClient(t *testing.T, sc *cScript) (obs *cObs) {
 		}
 		saved := *sse.DefaultClient
 		defer func() { *sse.DefaultClient = saved }()
+		poison := func(error, time.Duration) { obs.PoisonCalls++ }
+		if sc.Route != "pkg" {
+			// what DefaultClient says about limits is not this client's business: zero means "no limit"
+			sse.DefaultClient.Backoff.MaxRetries = -1
+			sse.DefaultClient.Backoff.MaxElapsedTime = 1
+			sse.DefaultClient.Backoff.MaxInterval = 1
+			sse.DefaultClient.OnRetry = poison
+		}
 		var conn *sse.Connection
 		switch sc.Route {
 		case "nilhttp":
@@ -406,6 +438,19 @@ func runClient(t *testing.T, sc *cScript) (obs *cObs) {
 			conn = sse.NewConnection(req)
 		default:
 			conn = cl.NewConnection(req)
+			if sc.Poison {
+				// NewConnection has configured the connection: what happens to the Client value and to the
+				// request afterwards (say, to set up the next connection) is none of its business
+				cl.Backoff = sse.Backoff{MaxRetries: -1, InitialInterval: 77 * time.Hour}
+				cl.OnRetry = poison
+				cl.ResponseValidator = func(*http.Response) error { obs.PoisonCalls++; return errors.New("validator of the next connection") }
+				cl.HTTPClient = &http.Client{Transport: roundTripFunc(func(*http.Request) (*http.Response, error) {
+					obs.PoisonCalls++
+					return nil, errors.New("transport of the next connection")
+				})}
+				req.Header.Set("Last-Event-ID", "poison")
+				req.Header.Set("X-Next-Connection", "1")
+			}
 		}
 		if sc.BufMax > 0 {
 			conn.Buffer(nil, sc.BufMax)
@@ -509,6 +554,9 @@ func interpretAttempt(a cAttempt, lastID string) streamOutcome {
 func judgeClient(sc *cScript, obs *cObs, prop string) (out []jv) {
 	if obs.Panic != "" {
 		return []jv{jvf([]string{"panic_or_deadlock"}, "client scenario panicked / deadlocked: %s", obs.Panic)}
+	}
+	if obs.PoisonCalls > 0 {
+		out = append(out, jvf([]string{"foreign_configuration_used"}, "the connection used configuration that is not its own %d times (DefaultClient's limits/OnRetry for a Client that has its own, or Client fields / request headers changed after NewConnection)", obs.PoisonCalls))
 	}
 	if obs.Runaway {
 		return []jv{jvf([]string{"connect_runaway"}, "Connect kept retrying (%d OnRetry calls for a script of %d attempts, %d requests sent) and had to be stopped by the step bound", len(obs.Retries), len(sc.Attempts), len(obs.Attempts))}
